@@ -25,7 +25,7 @@ man = {
     "setup_cmd": "./setup.sh",
     "hooks": {
         "guard": "verif",
-        "enable": "go build tag: the checks build /repo with `go1.26.8 test -c -tags verif` through a replace directive in /verif/sim/go.mod",
+        "enable": "go build tag: the checks build /repo with `go1.26.8 test -c -tags verif` through a replace directive in /verif/sim/go.mod; for the worlds that run the transport the check first copies /repo's working tree to a scratch directory and lets /verif/sim/instrument (go/ast) insert yield points and lock probes there (extra tag verifpt) - nothing of that is written to /repo",
         "baseline_off_cmd": "cd /repo && go test -vet=off -count=1 ./...",
         "source_commits": HOOK_COMMITS,
         "add_only": True,
